@@ -58,6 +58,11 @@ def gen_case(idx: int, seed: int, tier: str) -> Any:
         # a wide component: 9-24 children started at once, many of them waiting for (earlier and later) siblings
         fan = rng.choice([9, 10, 12, 16, 24])
         tree = e2.gen_tree(rng, max_depth=2, max_nodes=fan + 6, root_fan=fan, wait_heavy=True)
+    elif rng.random() < 0.04:
+        # a deep tree: a chain of 18-24 components, each the only child of the one above (all of them non-leaf components that are
+        # starting at the same time, each waiting for the one below)
+        depth = rng.choice([18, 20, 24])
+        tree = e2.gen_tree(rng, max_depth=depth, max_nodes=depth + 2, chain=True)
     else:
         tree = e2.gen_tree(rng, wait_heavy=rng.random() < 0.3)
     return {"backend": rng.choice(["asyncio", "trio"]), "sched_seed": rng.randrange(1 << 30), "shuffle": rng.random() < 0.5,
@@ -71,6 +76,8 @@ def tree_features(tree: dict[str, Any]) -> dict[str, int]:
     depth = max(p.count(".") + 1 if p else 0 for p in nodes)
     if depth >= 2:
         c["trees_with_depth_3plus"] = 1
+    if depth >= 17:
+        c["trees_with_depth_18plus"] = 1
     if any(len(n["children"]) >= 9 for n in nodes.values()):
         c["trees_with_9plus_siblings"] = 1
     if any(n.get("methods_in_base") and (n["has_prepare"] or n["has_start"]) for n in nodes.values()):
